@@ -1207,6 +1207,18 @@ def install(eng):
     def _isclose(eng, a, b, atol=Fraction(1, 10**8), rtol=Fraction(1, 10**5)):
         return M.elementwise(eng, lambda x, y: T.compare("le", T.absv(T.sub(x, y)), T.add(atol, T.mul(rtol, T.absv(y)))), a, b, dtype="bool")
 
+    @model("numpy.diff")
+    def _diff(eng, a, n=1, axis=-1, **kw):
+        if kw or n != 1:
+            raise Unsupported("numpy.diff with n != 1 / prepend / append")
+        a = _asarray(eng, a)
+        if a.ndim != 1:
+            raise Unsupported("numpy.diff of a multi-dimensional array")
+        f = a.fn
+        m = T.sub(a.shape[0], 1)
+        m = T.ite(T.compare("gt", m, 0), m, 0) if T.is_sym(m) else max(m, 0)
+        return I.Arr((m,), lambda i: T.sub(f(T.add(i, 1)), f(i)), a.dtype if a.dtype != "bool" else "int")
+
     @model("numpy.indices")
     def _indices(eng, dimensions, dtype=None, sparse=False):
         if sparse:
